@@ -15,6 +15,9 @@
        flags = state of the reused encoder when the run started, relative to the caller's settings and the
                creation-time run state: N strstbl NULL, I indent != 0, L lang, U use_strtbl, C output_charset,
                O any other run-state field; '-' if none
+   F <ops>   the same in FLOW MODE: w<i>/x<i> = wbxml_encoder_encode_tree + wbxml_encoder_get_output, W<i>/X<i> = raw start of the
+             root, the children through wbxml_encoder_encode_node, raw end, get_output; reset after every document
+   fd <ops>  struct dumps of a Flow-Mode encoder
    ed <ops>  same ops on one encoder; answer per run: pre-run dump | tree lang,charset,output type | status |
              post-run dump | post-reset dump   (34 fields in declaration order) */
 #include "vh.h"
@@ -22,12 +25,12 @@
 #include "wbxml_encoder.c"
 
 typedef struct {
-    int lang, ignore, strip, charset, use_strtbl, anon, version, gen, indent, textpid;
+    int lang, ignore, strip, charset, use_strtbl, anon, version, gen, indent, textpid, flow;
 } Caller;
 
 static void caller_init(Caller *c) {
     c->lang = 0; c->ignore = 0; c->strip = 0; c->charset = 0; c->use_strtbl = 1; c->anon = 0;
-    c->version = WBXML_VERSION_13; c->gen = WBXML_GEN_XML_COMPACT; c->indent = 1; c->textpid = 0;
+    c->version = WBXML_VERSION_13; c->gen = WBXML_GEN_XML_COMPACT; c->indent = 1; c->textpid = 0; c->flow = 0;
 }
 
 static void apply_all(WBXMLEncoder *e, const Caller *c) {
@@ -41,6 +44,7 @@ static void apply_all(WBXMLEncoder *e, const Caller *c) {
     wbxml_encoder_set_xml_gen_type(e, (WBXMLGenXMLType) c->gen);
     wbxml_encoder_set_indent(e, (WB_UTINY) c->indent);
     wbxml_encoder_set_text_public_id(e, (WB_BOOL) c->textpid);
+    if (c->flow) wbxml_encoder_set_flow_mode(e, TRUE);       /* also switches the string table off */
 }
 
 static int setter(WBXMLEncoder *e, Caller *c, const char *t) {
@@ -97,7 +101,7 @@ static void flags(WBXMLEncoder *e, const Caller *c, char *out) {
         out[n++] = 'O';
     if ((int) e->ignore_empty_text != c->ignore || (int) e->remove_text_blanks != c->strip || (int) e->produce_anonymous != c->anon ||
         (int) e->wbxml_version != c->version || (int) e->xml_gen_type != c->gen || (int) e->indent_delta != c->indent ||
-        (int) e->textual_publicid != c->textpid || e->flow_mode || !e->xml_encode_header)
+        (int) e->textual_publicid != c->textpid || (int) e->flow_mode != c->flow || !e->xml_encode_header)
         out[n++] = 'S';                      /* a setting is not the caller's */
     if (n == 0) out[n++] = '-';
     out[n] = 0;
@@ -177,15 +181,38 @@ static int would_double_free(WBXMLEncoder *e, WBXMLTree *t, int to_xml) {
     return !(WIFEXITED(status) && WEXITSTATUS(status) == 0);
 }
 
-static void run_obs(WBXMLEncoder *e, int doc, int poison, int to_xml, char *buf) {
+/* FLOW MODE (wbxml_encoder_set_flow_mode): the caller feeds nodes and asks for the output.  by_children = 0: the root node
+   through wbxml_encoder_encode_tree (which lends the tree's language to the encoder for the call); by_children = 1: the
+   caller sets the language, opens the root with wbxml_encoder_encode_raw_elt_start, feeds the children with
+   wbxml_encoder_encode_node, closes with wbxml_encoder_encode_raw_elt_end, and puts its own language setting back. */
+static WBXMLError flow_run(WBXMLEncoder *e, const Caller *c, WBXMLTree *t, int to_xml, int by_children, WB_UTINY **out, WB_ULONG *len) {
+    WBXMLError st;
+    wbxml_encoder_set_output_type(e, to_xml ? WBXML_ENCODER_OUTPUT_XML : WBXML_ENCODER_OUTPUT_WBXML);
+    if (!by_children || t->root == NULL || t->root->type != WBXML_TREE_ELEMENT_NODE || t->lang == NULL)
+        st = wbxml_encoder_encode_tree(e, t);
+    else {
+        wbxml_encoder_set_lang(e, t->lang->langID);
+        st = wbxml_encoder_encode_raw_elt_start(e, t->root, t->root->children != NULL);
+        if (st == WBXML_OK && t->root->children != NULL) st = wbxml_encoder_encode_node(e, t->root->children);
+        if (st == WBXML_OK) st = wbxml_encoder_encode_raw_elt_end(e, t->root, t->root->children != NULL);
+        wbxml_encoder_set_lang(e, (WBXMLLanguage) c->lang);
+    }
+    if (st == WBXML_OK) st = wbxml_encoder_get_output(e, out, len);
+    return st;
+}
+
+static void run_obs(WBXMLEncoder *e, const Caller *c, int doc, int poison, int to_xml, int by_children, char *buf) {
     WBXMLError terr, st; WB_UTINY *out = NULL; WB_ULONG len = 0;
     WBXMLTree *t = make_tree(doc, poison, &terr);
     if (!t) { sprintf(buf, "T%d", (int) terr); return; }
     if (would_double_free(e, t, to_xml)) {
         sprintf(buf, "X"); wbxml_encoder_reset(e); wbxml_tree_destroy(t); return;
     }
+    if (c->flow) st = flow_run(e, c, t, to_xml, by_children, &out, &len);
+    else {
     wbxml_encoder_set_tree(e, t);
     st = to_xml ? wbxml_encoder_encode_tree_to_xml(e, &out, &len) : wbxml_encoder_encode_tree_to_wbxml(e, &out, &len);
+    }
     sprintf(buf, "%d/%016llx/%u/%d", (int) st, (unsigned long long) c15_fnv(C15_FNV0, out ? out : (WB_UTINY *) "", out ? len : 0),
             (unsigned) len, out != NULL);
     if (out) wbxml_free(out);
@@ -193,16 +220,22 @@ static void run_obs(WBXMLEncoder *e, int doc, int poison, int to_xml, char *buf)
     wbxml_tree_destroy(t);
 }
 
-void c15_cmd_encoder(int nt, char **tok, int dump_mode) {
+void c15_cmd_encoder(int nt, char **tok, int mode) {
+    int dump_mode = mode & 1, flow = (mode & 2) != 0;
     WBXMLEncoder *e = wbxml_encoder_create(), *shim = dump_mode ? NULL : wbxml_encoder_create();
     Caller c;
     int i;
     caller_init(&c);
     if (dump_mode) { printf("C:"); enc_dump(e, stdout); }
+    if (flow) {                       /* F / fd: the encoder is in Flow Mode for its whole life */
+        c.flow = 1; c.use_strtbl = 0;
+        wbxml_encoder_set_flow_mode(e, TRUE);
+        if (shim) wbxml_encoder_set_flow_mode(shim, TRUE);
+    }
     for (i = 1; i < nt; i++) {
         char *t = tok[i];
-        if (t[0] == 'w' || t[0] == 'x') {
-            int doc = atoi(t + 1), poison = -1, to_xml = (t[0] == 'x');
+        if (t[0] == 'w' || t[0] == 'x' || (flow && (t[0] == 'W' || t[0] == 'X'))) {
+            int doc = atoi(t + 1), poison = -1, to_xml = (t[0] == 'x' || t[0] == 'X'), by_children = (t[0] == 'W' || t[0] == 'X');
             char *bang = strchr(t, '!');
             if (bang) poison = (bang[1] == 'c') ? POISON_CDATA + atoi(bang + 2) : atoi(bang + 1);
             if (doc < 0 || doc >= c15_ndocs) { printf(" bad"); continue; }
@@ -214,8 +247,11 @@ void c15_cmd_encoder(int nt, char **tok, int dump_mode) {
                 printf(" D:"); enc_dump(e, stdout);
                 printf("|%d,%d,%d", tr->lang ? (int) tr->lang->langID : 0, (int) tr->orig_charset,
                        to_xml ? WBXML_ENCODER_OUTPUT_XML : WBXML_ENCODER_OUTPUT_WBXML);
+                if (flow) st = flow_run(e, &c, tr, to_xml, by_children, &out, &len);
+                else {
                 wbxml_encoder_set_tree(e, tr);
                 st = to_xml ? wbxml_encoder_encode_tree_to_xml(e, &out, &len) : wbxml_encoder_encode_tree_to_wbxml(e, &out, &len);
+                }
                 if (out) wbxml_free(out);
                 printf("|%d|", (int) st); enc_dump(e, stdout);
                 wbxml_encoder_reset(e);
@@ -225,11 +261,11 @@ void c15_cmd_encoder(int nt, char **tok, int dump_mode) {
                 char a[96], b[96], s[96], fl[16];
                 WBXMLEncoder *f = wbxml_encoder_create();
                 flags(e, &c, fl);
-                run_obs(e, doc, poison, to_xml, a);
+                run_obs(e, &c, doc, poison, to_xml, by_children, a);
                 apply_all(f, &c);
-                run_obs(f, doc, poison, to_xml, b);
+                run_obs(f, &c, doc, poison, to_xml, by_children, b);
                 wbxml_encoder_destroy(f);
-                run_obs(shim, doc, poison, to_xml, s);
+                run_obs(shim, &c, doc, poison, to_xml, by_children, s);
                 shim_after_reset(shim, &c);
                 printf(" %s=%s=%s~%s", a, b, s, fl);
             }
